@@ -85,6 +85,22 @@ template <int D> inline void set_generic_data(Problem<D> &p, uint64_t seed) {
 }
 
 template <int S, int D> inline Spl<S, D> build(const Problem<D> &p) { return Spl<S, D>(p.T, p.P, p.t0, p.bc); }
+// The same spline reached through a HISTORY: the object first holds a larger problem (N+2 segments whose leading durations are p's,
+// other data, other start time), is queried in every way (energy, gradients, propagateGrad, evaluation), and is then updated to p
+// -- through the time-point overload when the time points are exactly representable, else through the duration overload.
+// Every observable of the result must equal that of build(p) bit for bit.
+template <int S, int D> inline Spl<S, D> build_with_history(const Problem<D> &p, int variant = 0) {
+  Problem<D> big; big.N = p.N + 2; big.T = p.T; big.T.push_back(variant ? 0.75 : 1.0); big.T.push_back(0.5); big.t0 = p.t0 + 2.0;
+  set_generic_data(big, 4242 + p.N);
+  Spl<S, D> s(big.T, big.P, big.t0, big.bc);
+  (void)s.getEnergy(); (void)s.getEnergyGrad(); (void)s.getEnergyPartialGradByCoeffs(); (void)s.getEnergyPartialGradByTimes();
+  { typename Spl<S, D>::MatrixType g = Spl<S, D>::MatrixType::Constant(2 * S * big.N, D, 0.25); Eigen::VectorXd gt = Eigen::VectorXd::Constant(big.N, -0.5); (void)s.propagateGrad(g, gt); }
+  for (int k = 0; k < 2 * S; ++k) (void)s.getTrajectory().evaluate(big.t0 + 0.25, k);
+  (void)s.getTrajectory().getTrajectoryLength(0.25);
+  std::vector<double> tp = p.timepoints(); bool exact = true; for (int i = 0; i < p.N; ++i) exact = exact && (tp[i + 1] - tp[i] == p.T[i]);
+  if (exact && variant == 0) s.update(tp, p.P, p.bc); else s.update(p.T, p.P, p.t0, p.bc);
+  return s;
+}
 
 // ----- R3: long-double polynomial calculus on published coefficients -----
 inline LD fallfac(int n, int k) { LD r = 1; for (int j = 0; j < k; ++j) r *= (LD)(n - j); return r; }
